@@ -73,7 +73,7 @@ def run(ctx):
                 for i in range(0, len(mm) - 1, 2):
                     (t1, l1), (t2, l2) = mm[i], mm[i + 1]
                     a_, b_ = Rat.sym('%s%d' % (t1.upper(), i + 1)), Rat.sym('%s%d' % (t2.upper(), i + 2))
-                    facts.append((t1, t2, path_sign(it, a_ - b_)))
+                    facts.append((t1, t2, path_sign(it, a_ - b_), l1, l2))
                 return r, dict(rec), me, other, facts
 
             def judge(v):
@@ -82,11 +82,31 @@ def run(ctx):
                     if list(r) != []:
                         return False, 'no solver called but result %r' % (r,)
                     # the pre-filter discarded the pair: some comparison must know strict separation
-                    strict = any((t1 == 'min' and t2 == 'max' and sg == frozenset('+')) or (t1 == 'max' and t2 == 'min' and sg == frozenset('-'))
-                                 for t1, t2, sg in facts)
+                    strict = [(l1, l2) for t1, t2, sg, l1, l2 in facts
+                              if (t1 == 'min' and t2 == 'max' and sg == frozenset('+')) or (t1 == 'max' and t2 == 'min' and sg == frozenset('-'))]
                     if not strict:
                         return False, 'the pre-filter returns [] for boxes that are not known to be strictly disjoint (touching boxes are discarded)'
+                    # the deciding comparison must put the SAME coordinate of the two segments side by side
+                    def component(lst, seg):
+                        pts = [seg.attrs[k] for k in ('start', 'control', 'control1', 'control2', 'end') if k in seg.attrs]
+                        for nm, get in (('x', lambda z: z.real()), ('y', lambda z: z.imag())):
+                            if all(any(to_rat(x).equals(get(to_rat(p))) for p in pts) for x in lst):
+                                return nm
+                        return None
+                    l1, l2 = strict[-1]
+                    comps = None
+                    for sa, sb_ in ((me, other), (other, me)):
+                        ca, cb = component(l1, sa), component(l2, sb_)
+                        if ca and cb:
+                            comps = (ca, cb)
+                    if comps is None:
+                        return False, 'the deciding comparison of the pre-filter is not between coordinates of the control points of the two segments'
+                    if comps[0] != comps[1]:
+                        return False, ('the pre-filter compares the %s-extent of one segment with the %s-extent of the other: crossing segments '
+                                       'away from the diagonal x = y are discarded' % comps)
                     return True, ''
+                for t1, t2, sg, l1, l2 in facts:
+                    pass
                 tag, a0, a1 = rec['call']
                 if len(r) != 1:
                     return False, 'solver result not passed through: %r' % (r,)
